@@ -72,10 +72,18 @@ pub fn loader_emit_after(files: &HashMap<String, String>, root: &str, config: &s
             return Err("load_config failed".to_string());
         }
         let src = files.get(&root).ok_or("root not in files")?;
+        // on a reused instance the task under test also overlaps with two other tasks (a bundler loads files concurrently):
+        // another file's task is started before it and freed while it is in flight, a third is started after that
+        const OTHER: &str = "query OtherFile__ { __typename }\n";
+        let before = if prior.is_empty() { 0 } else { with_str("/other/before.graphql", |pp, pl| with_str(OTHER, |sp, sl| abi::initiate_task(pp, pl, sp, sl))) };
         let id = with_str(&root, |pp, pl| with_str(src, |sp, sl| abi::initiate_task(pp, pl, sp, sl)));
         if id == 0 {
             return Err(format!("initiate_task: {}", result()));
         }
+        if before != 0 {
+            abi::free_task(before);
+        }
+        let after = if prior.is_empty() { 0 } else { with_str("/other/after.graphql", |pp, pl| with_str(OTHER, |sp, sl| abi::initiate_task(pp, pl, sp, sl))) };
         for _ in 0..64 {
             if !abi::get_required_files(id) {
                 return Err(format!("get_required_files: {}", result()));
@@ -97,6 +105,9 @@ pub fn loader_emit_after(files: &HashMap<String, String>, root: &str, config: &s
         let ok = abi::emit_js(id);
         let r = result();
         abi::free_task(id);
+        if after != 0 {
+            abi::free_task(after);
+        }
         if ok { Ok(r) } else { Err(format!("emit_js: {r}")) }
     })
     .join()
